@@ -56,6 +56,17 @@ var baseTree = []treeSpec{
 	{rel: "tree/emptydir", dir: true, mode: 0o755, mtime: 1600002200},
 	{rel: "tree/usr", dir: true, mode: 0o755, mtime: 1600002250},
 	{rel: "tree/usr/x", body: "x", mode: 0o644, mtime: 1600002260},
+	// a file inside the tree whose mode has bits every common umask strips, and links whose targets are not in
+	// lexically clean form (the literal target must be preserved)
+	{rel: "tree/sub/data.db", body: "db-bytes", mode: 0o666, mtime: 1600002270},
+	{rel: "tree/dotlnk", link: "./top.txt"},
+	{rel: "links/unclean", link: "../bin/../bin/tool"},
+	// sibling directories one of whose names is a string prefix of the other (glob destination mapping works on
+	// the longest common *string* prefix of the matches)
+	{rel: "lib", dir: true, mode: 0o755, mtime: 1600002300},
+	{rel: "lib/a.so", body: "lib-a", mode: 0o644, mtime: 1600002310},
+	{rel: "lib64", dir: true, mode: 0o755, mtime: 1600002320},
+	{rel: "lib64/b.so", body: "lib64-b", mode: 0o644, mtime: 1600002330},
 }
 
 // MkTree writes the base tree under dir (which must be fresh) and fixes
